@@ -24,6 +24,7 @@ G_S = 'gs'
 G_F = 1.5
 G_L = [1, 2]
 G_LS = ['a', 'b']
+G_X = 3
 def ext_i2s(a: int) -> str:
     return 's' * (abs(a) % 3)
 def ext_s2i(a: str) -> int:
@@ -61,6 +62,9 @@ EXTERNALS = {
     'ext_sink': ([], None, 'none'), 'ext_cm': ([None], ('other', 'ext_cm'), None),
 }
 GLOBALS = {'G_I': 'int', 'G_S': 'str', 'G_F': 'float', 'G_L': 'list', 'G_LS': 'list', 'ext_cm': ('other', 'type')}
+
+# a global that generated functions only ever *shadow* (as a loop variable): the inference must not look locals up outside
+SHADOW_GLOBALS = {'G_X': 'int'}
 
 HAZARDS = ['for_retarget', 'aug_retype', 'with_as', 'untyped_assign', 'nonlocal_retype', 'closure_out']
 BASIC = ['int', 'float', 'bool', 'str', 'list']
@@ -413,6 +417,9 @@ class Gen:
                 if cands:
                     lv = r.choice(cands)
                     self.features.add('hazard:for_retarget')
+            if lv is None and elt == 'str' and not sc.nested and 'G_X' not in sc.env and r.random() < 0.25:
+                lv = 'G_X'            # shadows the int global G_X with str values
+                self.features.add('shadowed_global')
             if lv is None:
                 lv = ('i%d' if not sc.nested else 'j%d') % sc.loop_vars
             out = [pad + 'for %s in %s:' % (lv, it)]
@@ -727,6 +734,8 @@ WITNESSES = [
      "def f():\n    x = 1\n    def g0() -> int:\n        return x\n    x = ext_i2s(g0())\n    return x\n", [()]),
     ('no_fixed_point', 'no_fixed_point_nonmonotone_untyped_assignment',
      "def f(p0: int, c0: bool):\n    if c0:\n        ext_sink(c0)\n        y = 1\n    for i1 in [1, 2]:\n        y = i1\n        if c0:\n            c = 1\n            y, c = ('s', p0 >= y)\n        ext_sink(c0)\n", [(1, True)]),
+    ('unbounded_products', 'no_fixed_point_unbounded_product_types',
+     "def f(c0: bool):\n    x = 1\n    while c0:\n        x = (x, 1)\n    return x\n", [(False,)]),
     ('sibling_call', 'local_function_called_from_sibling',
      "def f():\n    x = 1\n    def g0():\n        return x\n    g0()\n    def g1():\n        return g0()\n    x = 'a'\n    g1()\n    return x\n", [()]),
 ]
